@@ -52,7 +52,7 @@ func (c20) Gen(tier string, seed int64, emit func([]Ev)) {
 	r := rand.New(rand.NewSource(seed))
 	reps := 1
 	if tier == "thorough" {
-		reps = 12
+		reps = 80
 	}
 	for rep := 0; rep < reps; rep++ {
 		for tag := 0; tag < 256; tag++ {
